@@ -38,6 +38,19 @@ def impl(case):
             from .util import SortedView, reversed_tree
             for t in case["trees"]:
                 build(reversed_tree(t), SortedView, None, index)
+        elif case.get("cls") == "links":
+            from .util import build_links
+            labels = {}
+            for t in case["trees"]:
+                build_links(t, index, labels)
+            lab = lambda x: labels[id(x)]
+            # links first, then their targets, then everything again: a value remembered in the wrong place shows on the second reading
+            order = sorted(index, key=lambda k: (k % 2 == 0, k))
+            for k in order:
+                attrs(index[k], lab)
+            nav = {str(k): attrs(index[k], lab) for k in index}
+            ca = [[lab(x) for x in autil.commonancestors(*[index[l] for l in tup])] for tup in tups]
+            return {"nav": nav, "ca": ca}
         else:
             cls = CLASSES[case.get("cls", "nm")]
             for t in case["trees"]:
